@@ -62,21 +62,24 @@ func (r Rule) h() int64 {
 
 // Scenario is one execution to run.
 type Scenario struct {
-	ID       int     `json:"id"`
-	Powers   []int64 `json:"powers"`
-	Byz      int     `json:"byz"` // index of the Byzantine validator, -1 none
-	Rules    []Rule  `json:"rules"`
-	Heights  int64   `json:"heights"`
-	MaxSteps int     `json:"max_steps,omitempty"`
-	WalLight bool    `json:"wal_light,omitempty"`
-	PartSize int     `json:"part_size,omitempty"`
-	Mode     string  `json:"mode,omitempty"`
-	Extra    string  `json:"extra,omitempty"`
+	ID       int         `json:"id"`
+	Powers   []int64     `json:"powers"`
+	Byz      int         `json:"byz"` // index of the Byzantine validator, -1 none
+	Rules    []Rule      `json:"rules"`
+	Heights  int64       `json:"heights"`
+	MaxSteps int         `json:"max_steps,omitempty"`
+	WalLight bool        `json:"wal_light,omitempty"`
+	PartSize int         `json:"part_size,omitempty"`
+	Mode     string      `json:"mode,omitempty"`
+	Extra    string      `json:"extra,omitempty"`
 	Inject   *InjectSpec `json:"inject,omitempty"`
 	Solo     *SoloSpec   `json:"solo,omitempty"`
 	// ValChange: the application changes one validator's voting power in EndBlock of
 	// block Height (the new set is in force from Height+1 on)
 	ValChange *ValChange `json:"val_change,omitempty"`
+	// NoProposerFix: do NOT put the right cached proposer back after a node reloaded its state
+	// (see the known finding "proposer-differs-after-reload"); violations that follow carry cause=...
+	NoProposerFix bool `json:"no_proposer_fix,omitempty"`
 }
 
 // ValChange describes one validator-set change.
